@@ -58,7 +58,7 @@ func checkZeroFill(p *Prog, r *Report) {
 	}
 	r.fn(funcName(f))
 	nAttr, nRel := 0, 0
-	eachInstr(f, func(ins ssa.Instruction) {
+	eachInstrOf(append([]*ssa.Function{f}, stringHelpers(f)...), func(ins ssa.Instruction) {
 		mu, ok := ins.(*ssa.MapUpdate)
 		if !ok {
 			return
@@ -753,44 +753,90 @@ func checkSoftCheckComplete(p *Prog, r *Report, prefix string) {
 		return
 	}
 	r.fn(funcName(f))
-	var fill []*ssa.Next
-	for _, ld := range findLoops(f) {
-		if ld.kind != "map" {
-			continue
-		}
-		if _, fl, ok := fieldLoad(ld.src); ok && (fl == "Attrs" || fl == "Rels") {
-			stores := false
-			for b := range ld.blocks {
-				for _, ins := range b.Instrs {
-					if _, ok := ins.(*ssa.MapUpdate); ok {
-						stores = true
+	// the zero-filling loops, in check itself or in a phase helper it calls on
+	// its own receiver; for a loop in a helper the instruction every return of
+	// check must pass is the call of that helper, and every return of the
+	// helper must pass the loop
+	type fillLoop struct {
+		nx   *ssa.Next
+		in   *ssa.Function
+		pass ssa.Instruction // in check
+	}
+	var fill []fillLoop
+	collect := func(g *ssa.Function, pass ssa.Instruction) {
+		for _, ld := range findLoops(g) {
+			if ld.kind != "map" {
+				continue
+			}
+			if _, fl, ok := fieldLoad(ld.src); ok && (fl == "Attrs" || fl == "Rels") {
+				stores := false
+				for b := range ld.blocks {
+					for _, ins := range b.Instrs {
+						if _, ok := ins.(*ssa.MapUpdate); ok {
+							stores = true
+						}
 					}
 				}
-			}
-			if stores {
-				fill = append(fill, ld.next)
+				if stores {
+					ps := pass
+					if ps == nil {
+						ps = ld.next
+					}
+					fill = append(fill, fillLoop{ld.next, g, ps})
+				}
 			}
 		}
 	}
+	collect(f, nil)
+	eachInstr(f, func(ins ssa.Instruction) {
+		c, ok := ins.(*ssa.Call)
+		if !ok {
+			return
+		}
+		g := c.Common().StaticCallee()
+		if g == nil || g.Blocks == nil || !smallHelper(g) || len(c.Common().Args) == 0 || c.Common().Args[0] != ssa.Value(f.Params[0]) {
+			return
+		}
+		collect(g, c)
+	})
 	r.floor(prefix+": zero-filling loops in SoftResource.check", len(fill), 2)
 	n := 0
+	whatOf := func(nx *ssa.Next) string {
+		if _, fl, _ := fieldLoad(nx.Iter.(*ssa.Range).X); fl == "Rels" {
+			return "relationships"
+		}
+		return "attributes"
+	}
 	eachInstr(f, func(ins ssa.Instruction) {
 		ret, ok := ins.(*ssa.Return)
 		if !ok {
 			return
 		}
 		n++
-		for _, nx := range fill {
-			nx := nx
-			passes := mustPassInstr(f, ret, func(i2 ssa.Instruction) bool { return i2 == ssa.Instruction(nx) })
-			what := "attributes"
-			if _, fl, _ := fieldLoad(nx.Iter.(*ssa.Range).X); fl == "Rels" {
-				what = "relationships"
-			}
+		for _, fl := range fill {
+			fl := fl
+			passes := mustPassInstr(f, ret, func(i2 ssa.Instruction) bool { return i2 == fl.pass })
+			what := whatOf(fl.nx)
 			r.decide(passes, prefix+".check-complete", "SoftResource.check:return@"+p.pos(ret.Pos())+":"+what, p.pos(ret.Pos()), "the loop that zero-fills missing "+what+" runs before this return",
 				"SoftResource.check can return without having run the loop that stores the typed zero value of missing "+what+": Get then returns nil (or a stale value) for such a field, and callers that assert its type panic or mis-sort")
 		}
 	})
+	for _, fl := range fill {
+		if fl.in == f {
+			continue
+		}
+		fl := fl
+		eachInstr(fl.in, func(ins ssa.Instruction) {
+			ret, ok := ins.(*ssa.Return)
+			if !ok {
+				return
+			}
+			passes := mustPassInstr(fl.in, ret, func(i2 ssa.Instruction) bool { return i2 == ssa.Instruction(fl.nx) })
+			what := whatOf(fl.nx)
+			r.decide(passes, prefix+".check-complete", funcName(fl.in)+":return@"+p.pos(ret.Pos())+":"+what, p.pos(ret.Pos()), "the loop that zero-fills missing "+what+" runs before this return",
+				"the phase helper of SoftResource.check can return without having run the loop that stores the typed zero value of missing "+what)
+		})
+	}
 	r.floor(prefix+": returns of SoftResource.check", n, 1)
 }
 
